@@ -1,5 +1,5 @@
 HOOK_COMMITS = ["1ff129b", "a99d5e7"]
-FIX_COMMITS = ["4e1b160", "0b73798", "872da6d"]
+FIX_COMMITS = ["4e1b160", "0b73798", "872da6d", "b5a5c41", "ada87a3", "a2a8667", "23387d2", "95cd43f", "1d40f2f"]
 NOTES = "See DESIGN.md. Every check rebuilds the Lean property module, audits axioms, rebuilds the harness from /repo's working tree (content-hash cache) and runs the ties."
 NOT_APPLICABLE = {}
 CHECKS = {
@@ -39,4 +39,110 @@ CHECKS = {
   "text": "Layout exactness is proved for all head/array widths and hash sizes 1,2,4,8 about the Lean definition regenerated from feldman_hashset_base.h; equal hashes follow equal paths, distinct hashes diverge before the bits run out (injectivity of the cut sequence, from the cut specification theorem), the slot expand_slot derives from bit_offset() equals the traverse slot. All 4420 configurations are also run on the real code, and families of prefix-sharing hashes are inserted into a real FeldmanHashSet.",
   "note": "split_bitstring/byte_splitter are hand models tied by differential runs; head width 64 is undefined (known finding with proved witness); widths above 32 with byte-array hashes are outside split_bitstring's unsigned result (proved witness).",
  },
+ "C01": {'category': 'translation_validation',
+ 'note': 'SC interleavings only (threads serialised by a baton at every atomic operation); explored schedules only (seeded random, PCT, exhaustive <=1/<=2 preemptions of small programs); memory '
+         'orders not modelled; Lean kernel + propext/Classical.choice/Quot.sound for the checker theorem. std::sort/binary_search/lower_bound modelled by contract; retire discipline (retire after '
+         'unlink, once) obeyed by the harness client.',
+ 'technique': 'Lean 4 theorems about the reclamation decision of a scan pass (pure model tied by differential runs on the real classic_scan/inplace_scan) + disposer-time oracle on the real HP under '
+              'a deterministic scheduler',
+ 'text': "The decision of one scan pass (what is freed given the collected hazards and the retired array, both strategies including the odd-address fallback) is a Lean model with theorems 'nothing "
+         "equal to a hazard is freed'; it is tied to the real functions by differential runs. The interleaving-level clause (a guard validated before retirement is seen by every later pass) is "
+         'decided on explored schedules of the real code by an oracle evaluated inside the disposer: no guard whose protect() completed may exist for the object. The protocol theorem over all '
+         'schedules is work in progress and not claimed.'},
+ "C02": {'category': 'translation_validation',
+ 'note': 'SC interleavings only (threads serialised by a baton at every atomic operation); explored schedules only (seeded random, PCT, exhaustive <=1/<=2 preemptions of small programs); memory '
+         'orders not modelled; Lean kernel + propext/Classical.choice/Quot.sound for the checker theorem.',
+ 'technique': 'disposer-time oracle on the real DHP under a deterministic scheduler (40 guards per thread to force guard-block extension, detach/re-attach) + Lean theorem on the shared scan decision '
+              'model',
+ 'text': "DHP's per-pass decision has the same shape as HP's classic scan (binary search of each retired entry in the sorted hazard copy); the Lean theorem covers that decision. Guard blocks, "
+         'retired blocks and record reuse are decided on explored schedules by the disposer-time oracle only.'},
+ "C03": {'category': 'translation_validation',
+ 'note': 'SC interleavings only (threads serialised by a baton at every atomic operation); explored schedules only (seeded random, PCT, exhaustive <=1/<=2 preemptions of small programs); memory '
+         'orders not modelled; Lean kernel + propext/Classical.choice/Quot.sound for the checker theorem.',
+ 'technique': 'Lean 4 theorems (a pass partitions the retired array: kept + freed is a permutation; unprotected => freed) on the scan model tied by differential runs + exactly-once oracles on HP/DHP '
+              '(per-object disposer counter, quiet-scan completeness, count after destruction)',
+ 'text': 'Per pass: nothing lost or duplicated and every unprotected entry freed are Lean theorems about the decision model (both HP strategies). Across passes, help_scan adoption, detach and '
+         'destruction are decided on explored schedules by counting disposer calls per object and checking after destruction of the singleton that every retired object was disposed exactly once; '
+         'thorough adds an ASan build and the retired-capacity boundary.'},
+ "C06": {'category': 'translation_validation',
+ 'note': 'SC interleavings only (threads serialised by a baton at every atomic operation); explored schedules only (seeded random, PCT, exhaustive <=1/<=2 preemptions of small programs); memory '
+         'orders not modelled; Lean kernel + propext/Classical.choice/Quot.sound for the checker theorem.',
+ 'technique': 'Lean 4: histories of the real containers under a deterministic scheduler judged against the Lean sequential specification by a linearizability checker proved sound and complete in '
+              'Lean',
+ 'text': 'Every queue variant (MSQueue, MoirQueue, BasketQueue, OptimisticQueue, RWQueue, FCQueue; intrusive and container; HP/DHP; item counter, seq-cst) is run. The executable Lean model here is '
+         'the sequential specification (Spec.fifo) plus the definition of linearizability; the proved theorem is that the checker decides it exactly, so a history the real code produces is accepted '
+         "iff it is linearizable. The containers' algorithms themselves are not yet modelled step by step: the claim is validation of every explored execution of the real code against the model, not "
+         'a proof over all schedules. '},
+ "C07": {'category': 'translation_validation',
+ 'note': 'SC interleavings only (threads serialised by a baton at every atomic operation); explored schedules only (seeded random, PCT, exhaustive <=1/<=2 preemptions of small programs); memory '
+         'orders not modelled; Lean kernel + propext/Classical.choice/Quot.sound for the checker theorem.',
+ 'technique': 'Lean 4: histories of the real containers under a deterministic scheduler judged against the Lean sequential specification by a linearizability checker proved sound and complete in '
+              'Lean',
+ 'text': 'Vyukov bounded queue, static/dynamic buffers, capacities 2/4/8, intrusive, single-consumer front/pop_front. The executable Lean model here is the sequential specification (Spec.bfifo with '
+         "the object's own capacity()) plus the definition of linearizability; the proved theorem is that the checker decides it exactly, so a history the real code produces is accepted iff it is "
+         "linearizable. The containers' algorithms themselves are not yet modelled step by step: the claim is validation of every explored execution of the real code against the model, not a proof "
+         'over all schedules. '},
+ "C10": {'category': 'translation_validation',
+ 'note': 'SC interleavings only (threads serialised by a baton at every atomic operation); explored schedules only (seeded random, PCT, exhaustive <=1/<=2 preemptions of small programs); memory '
+         'orders not modelled; Lean kernel + propext/Classical.choice/Quot.sound for the checker theorem.',
+ 'technique': 'Lean 4: histories of the real containers under a deterministic scheduler judged against the Lean sequential specification by a linearizability checker proved sound and complete in '
+              'Lean',
+ 'text': 'FCDeque over std::deque and boost deque, elimination on/off, compact factor 1-2, combine passes 1-4. The executable Lean model here is the sequential specification (Spec.deque) plus the '
+         "definition of linearizability; the proved theorem is that the checker decides it exactly, so a history the real code produces is accepted iff it is linearizable. The containers' algorithms "
+         'themselves are not yet modelled step by step: the claim is validation of every explored execution of the real code against the model, not a proof over all schedules. '},
+ "C11": {'category': 'translation_validation',
+ 'note': 'SC interleavings only (threads serialised by a baton at every atomic operation); explored schedules only (seeded random, PCT, exhaustive <=1/<=2 preemptions of small programs); memory '
+         'orders not modelled; Lean kernel + propext/Classical.choice/Quot.sound for the checker theorem.',
+ 'technique': 'Lean 4: histories of the real containers under a deterministic scheduler judged against the Lean sequential specification by a linearizability checker proved sound and complete in '
+              'Lean',
+ 'text': 'FCPriorityQueue, and MSPriorityQueue restricted by construction to histories without push/pop overlap (pre-filled pops-only, pushes-only then sequential drain). The executable Lean model '
+         'here is the sequential specification (Spec.maxpq (pop returns any item of maximal priority; push fails only when full)) plus the definition of linearizability; the proved theorem is that '
+         "the checker decides it exactly, so a history the real code produces is accepted iff it is linearizable. The containers' algorithms themselves are not yet modelled step by step: the claim "
+         'is validation of every explored execution of the real code against the model, not a proof over all schedules. '},
+ "C13": {'category': 'translation_validation',
+ 'note': 'SC interleavings only (threads serialised by a baton at every atomic operation); explored schedules only (seeded random, PCT, exhaustive <=1/<=2 preemptions of small programs); memory '
+         'orders not modelled; Lean kernel + propext/Classical.choice/Quot.sound for the checker theorem.',
+ 'technique': 'Lean 4: histories of the real containers under a deterministic scheduler judged against the Lean sequential specification by a linearizability checker proved sound and complete in '
+              'Lean',
+ 'text': '31 list variants (Michael/Lazy/Iterable; set and kv; HP/DHP/RCU gpi,gpb; intrusive; nogc; compare/less; item counter). The executable Lean model here is the sequential specification '
+         '(Spec.mapConc (keys strict, functor payloads not atomic with the operation)) plus the definition of linearizability; the proved theorem is that the checker decides it exactly, so a history '
+         "the real code produces is accepted iff it is linearizable. The containers' algorithms themselves are not yet modelled step by step: the claim is validation of every explored execution of "
+         'the real code against the model, not a proof over all schedules. '},
+ "C14": {'category': 'translation_validation',
+ 'note': 'SC interleavings only (threads serialised by a baton at every atomic operation); explored schedules only (seeded random, PCT, exhaustive <=1/<=2 preemptions of small programs); memory '
+         'orders not modelled; Lean kernel + propext/Classical.choice/Quot.sound for the checker theorem.',
+ 'technique': 'Lean 4: histories of the real containers under a deterministic scheduler judged against the Lean sequential specification by a linearizability checker proved sound and complete in '
+              'Lean',
+ 'text': '53 hash variants (MichaelHashSet/Map over every list, SplitList static/dynamic tables with growth, FeldmanHashSet/Map at minimal widths with shared-prefix hashes; HP/DHP/RCU/nogc). The '
+         'executable Lean model here is the sequential specification (Spec.mapConc) plus the definition of linearizability; the proved theorem is that the checker decides it exactly, so a history '
+         "the real code produces is accepted iff it is linearizable. The containers' algorithms themselves are not yet modelled step by step: the claim is validation of every explored execution of "
+         'the real code against the model, not a proof over all schedules. '},
+ "C15": {'category': 'translation_validation',
+ 'note': 'SC interleavings only (threads serialised by a baton at every atomic operation); explored schedules only (seeded random, PCT, exhaustive <=1/<=2 preemptions of small programs); memory '
+         'orders not modelled; Lean kernel + propext/Classical.choice/Quot.sound for the checker theorem.',
+ 'technique': 'Lean 4: histories of the real containers under a deterministic scheduler judged against the Lean sequential specification by a linearizability checker proved sound and complete in '
+              'Lean',
+ 'text': '27 variants (SkipListSet/Map, EllenBinTree set/map, BronsonAVLTreeMap value/pointer with injecting and pool monitors; HP/DHP/RCU). The executable Lean model here is the sequential '
+         'specification (Spec.mapRelaxed) plus the definition of linearizability; the proved theorem is that the checker decides it exactly, so a history the real code produces is accepted iff it is '
+         "linearizable. The containers' algorithms themselves are not yet modelled step by step: the claim is validation of every explored execution of the real code against the model, not a proof "
+         "over all schedules. extract_min/extract_max: returned key present and empty only if empty are in the specification; 'no key present throughout is smaller/larger' is a real-time oracle over "
+         'the history.'},
+ "C16": {'category': 'translation_validation',
+ 'note': 'SC interleavings only (threads serialised by a baton at every atomic operation); explored schedules only (seeded random, PCT, exhaustive <=1/<=2 preemptions of small programs); memory '
+         'orders not modelled; Lean kernel + propext/Classical.choice/Quot.sound for the checker theorem.',
+ 'technique': 'Lean 4: histories of the real containers under a deterministic scheduler judged against the Lean sequential specification by a linearizability checker proved sound and complete in '
+              'Lean',
+ 'text': '23 variants (StripedSet/Map over list/set/flat buckets, striping and refinable policies with forced resizes; CuckooSet/Map striping/refinable, list/vector probe sets, stored hash on/off). '
+         'The executable Lean model here is the sequential specification (Spec.mapConc) plus the definition of linearizability; the proved theorem is that the checker decides it exactly, so a '
+         "history the real code produces is accepted iff it is linearizable. The containers' algorithms themselves are not yet modelled step by step: the claim is validation of every explored "
+         'execution of the real code against the model, not a proof over all schedules. '},
+ "C23": {'category': 'translation_validation',
+ 'note': 'SC interleavings only (threads serialised by a baton at every atomic operation); explored schedules only (seeded random, PCT, exhaustive <=1/<=2 preemptions of small programs); memory '
+         "orders not modelled; Lean kernel + propext/Classical.choice/Quot.sound for the checker theorem. wait strategy backoff only; boost TSS replaced by an explicit reset of the kernel's thread "
+         'record under the scheduler.',
+ 'technique': 'histories of every flat-combining container (exactly-once and response-after-execution show as linearizability of the container) + reclamation oracle (quarantining allocator checks at '
+              'free time that the publication record is unreachable) under a deterministic scheduler with thread exit as a scheduling point',
+ 'text': "No kernel model yet: a request executed twice, never, or answered before execution breaks the container's history and is caught by the verified checker; mutual exclusion of combiners "
+         'likewise. Reclamation of publication records is judged by an allocator that keeps freed records readable and checks reachability from the publication list at the moment of free. This check '
+         'found the compact_list defect (fixed).'},
 }
